@@ -45,6 +45,9 @@ class Profile:
     p_model_shape: float = 0.2       # falsy model object
     p_listener_kind: float = 0.3     # listeners that compare equal / generic hooks objects
     p_write: float = 0.0             # per op: somebody assigns the model field directly
+    p_same_name: float = 0.35        # per inline callable: its __name__ is `check`, like others'
+    p_lazy: float = 0.15             # per coroutine callback (async machines): a plain function returning the awaitable
+    p_attr_event: float = 0.3        # per unknown event: its name is an attribute of the machine (state id, method, ...)
     p_alias_sub: float = 0.12        # per scenario: an event re-declared under a second name by a subclass
 
 
@@ -136,7 +139,8 @@ def gen_callbacks(rng: random.Random, P: Profile, scn: Scn, evs):
                 prov = rng.choice(P.providers)
             elif style == "decorator":
                 prov = "machine"
-            new(group, style, prov, None, at)
+            # distinct inline callables that share a __name__ (lambdas, closures of one factory)
+            new(group, style, prov, "check" if style == "callable" and rng.random() < P.p_same_name else None, at)
 
     for ti, tr in enumerate(scn.trans):
         for g in ("validators", "cond", "unless", "before", "on", "after"):
@@ -174,9 +178,14 @@ def gen_callbacks(rng: random.Random, P: Profile, scn: Scn, evs):
     used = sorted({c.provider for c in scn.cbs if c.provider.startswith("L")})
     scn.listeners_ctor = used
     if rng.random() < P.p_model_shape:
-        scn.model_shape = rng.choice(["len0", "boolF"])
+        scn.model_shape = rng.choice(["len0", "boolF", "lib"])
     if used and rng.random() < P.p_listener_kind:
-        scn.listener_kind = rng.choice(["eq", "hooks"])
+        scn.listener_kind = rng.choice(["eq", "hooks", "falsy"])
+    real = [c for c in scn.cbs if c.coro and not c.alias_of and c.id not in {x.alias_of for x in scn.cbs}]
+    if len(real) >= 2:
+        for c in real[1:]:
+            if not c.wrap and rng.random() < P.p_lazy:
+                c.wrap = "lazy"
 
 
 def sibling_map(scn: Scn):
@@ -266,8 +275,17 @@ def gen_ops(rng: random.Random, P: Profile, scn: Scn, evs):
         elif r < P.p_activate + P.p_reconstruct:
             ops.append(("reconstruct",))
         elif rng.random() < P.p_unknown_event:
-            # any name of the pool, declared or not, including the reserved `__initial__` (id 0)
-            ops.append(("send", rng.randrange(0, len(EVENTS))))
+            if rng.random() < P.p_attr_event:
+                # not an event, but an attribute of the machine: a state id, a callback method, API names
+                names = [scn.sid(i) for i in range(len(scn.states))] + [c.name for c in scn.cbs if c.provider == "machine"] + \
+                    ["model", "states", "current_state", "allowed_events", "name", "send", "events", "state_field"]
+                nm = rng.choice(names)
+                k = next((i for i, v in scn.extra_events.items() if v == nm), 100 + len(scn.extra_events))
+                scn.extra_events[k] = nm
+                ops.append(("send", k))
+            else:
+                # any name of the pool, declared or not, including the reserved `__initial__` (id 0)
+                ops.append(("send", rng.randrange(0, len(EVENTS))))
         else:
             ops.append(("send", rng.choice(evs)))
     scn.ops = ops
